@@ -5,6 +5,8 @@ import (
 	"bytes"
 	"io"
 
+	pk "github.com/Tnze/go-mc/net/packet"
+
 	"verif/engine"
 )
 
@@ -37,10 +39,11 @@ const (
 	wrPlain       = iota // sinkWriter: Write only
 	wrBytesBuffer        // *bytes.Buffer: io.ByteWriter, io.StringWriter, io.ReaderFrom
 	wrBufio              // *bufio.Writer (16-byte buffer) over a sinkWriter: io.ByteWriter; flushed before judging
+	wrReentrant          // a framing writer: its Write encodes a VarLong and a VarInt of its own (to another sink) BEFORE it consumes p
 	nWr
 )
 
-var wrNames = [nWr]string{"plain", "bytes.Buffer", "bufio.Writer"}
+var wrNames = [nWr]string{"plain", "bytes.Buffer", "bufio.Writer", "reentrant-framing-writer"}
 
 // eofReader hands out everything asked for and reports io.EOF together with the final bytes.
 type eofReader struct {
@@ -157,11 +160,31 @@ func (s *sinkWriter) Write(p []byte) (int, error) {
 	return len(p), nil
 }
 
+// reentrantWriter is a legal io.Writer (it neither modifies nor retains p) that uses the codec under test itself
+// while p is still unconsumed, as a length-prefixing framing layer does. An encoder that hands its writer a scratch
+// buffer it no longer owns (returned to a pool before Write, package-level scratch) is overwritten in that window.
+type reentrantWriter struct {
+	sink  sinkWriter
+	inner sinkWriter
+}
+
+func (r *reentrantWriter) Write(p []byte) (int, error) {
+	r.inner.n = 0
+	if _, err := pk.VarLong(-1).WriteTo(&r.inner); err != nil {
+		return 0, err
+	}
+	if _, err := pk.VarInt(300).WriteTo(&r.inner); err != nil {
+		return 0, err
+	}
+	return r.sink.Write(p)
+}
+
 // writers is the per-worker set of reusable writer objects.
 type writers struct {
 	sink sinkWriter
 	bb   bytes.Buffer
 	bw   *bufio.Writer
+	re   reentrantWriter
 }
 
 func (w *writers) open(kind int) io.Writer {
@@ -180,6 +203,9 @@ func (w *writers) open(kind int) io.Writer {
 			w.bw.Reset(&w.sink)
 		}
 		return w.bw
+	case wrReentrant:
+		w.re.sink.n, w.re.sink.calls = 0, 0
+		return &w.re
 	}
 	panic("bad writer kind")
 }
@@ -196,6 +222,8 @@ func (w *writers) received(kind int) []byte {
 			panic("harness: flush of bufio.Writer over an accepting sink failed: " + err.Error())
 		}
 		return w.sink.b[:w.sink.n]
+	case wrReentrant:
+		return w.re.sink.b[:w.re.sink.n]
 	}
 	panic("bad writer kind")
 }
